@@ -168,7 +168,8 @@ PROPS = {
         level_text="Container: the real parse_tls_record_with_header body (sliced from /repo each run) is proved by Verus to be, per content type, the explicit accumulate-while-Ok loop over the per-message parser (many1(complete(p))), one blob for application data, one completed heartbeat, Switch error for all other 251 types - for every payload length; consequences proved as lemmas: a whole record never answers Incomplete, empty CCS/alert payloads and malformed first messages never yield a value, alerts decode pairwise in wire order with an odd trailing byte left as remainder. This is relative to the nom combinator contracts (complete / many1), which are assumptions in Verus and bounded Kani obligations on the real nom. Leaf message parsers: Kani harnesses on the compiled code (full-domain for CCS/alert, bounded for heartbeat / application data).",
         level_note="Trusted: nom shim contracts for complete/many1 (Kani shim_* harnesses, bounded); 'fun_of(parse_x) is the function parse_x computes' for each abstract message parser (determinism of safe, state-free code) and 'remainder is never longer than the input' (checked as is_suffix in the Kani leaves); leaf contracts ccs_post/alert_post/appdata_post are assumed in Verus and are the assertions of fd_msg_ccs / fd_msg_alert / leaf_msg_appdata. One-step == two-step parsing is decided in C02 (plaintext glue), not here.",
         technique="contract-based deductive verification: Verus on the extracted container + Kani contract harnesses for the leaf message parsers",
-        verus=["many", "plaintext", "messages"],
+        verus=["many", "plaintext", "messages", "dispatch_hs"],
+        standins=[dict(name="framing_boundaries", kind="bounded-execution", bound="declared lengths {0,1,2,3,16383..16385,16639..16641,32768,65535} x 3 content types x 8 prefix cuts, TLS raw/encrypted/plaintext/tls_parser + DTLS record (372 cases)", payload={"framing_boundary_check": 1})],
         kani=[dict(quick=["fd_msg_ccs", "fd_msg_alert", "leaf_msg_appdata", "leaf_msg_heartbeat", "leaf_prwh_heartbeat", "leaf_prwh_appdata", "shim_complete", "shim_many1"], timeout=900)],
         paired={"many": ["leaf_prwh_heartbeat", "leaf_prwh_appdata"]},
         explanation="see level_text",
@@ -182,6 +183,7 @@ PROPS = {
         kani=[dict(quick=["fd_record_header", "fd_raw_record_small", "fd_encrypted_small", "shim_take", "shim_be", "shim_map_parser", "shim_complete", "shim_many1", "leaf_prwh_heartbeat"],
                    thorough=["fd_raw_record_full", "fd_encrypted_full"], timeout=900, timeout_thorough=2400)],
         paired={"frame": ["fd_raw_record_small", "fd_encrypted_small"], "many": ["leaf_prwh_heartbeat", "leaf_prwh_appdata"], "plaintext": []},
+        standins=[dict(name="framing_boundaries", kind="bounded-execution", bound="declared lengths {0,1,2,3,16383..16385,16639..16641,32768,65535} x 3 content types x 8 prefix cuts, TLS raw/encrypted/plaintext/tls_parser + DTLS record (372 cases)", payload={"framing_boundary_check": 1})],
         explanation="see level_text",
     ),
     "C04": dict(
@@ -204,6 +206,7 @@ PROPS = {
         level_note="Trusted: nom shims (be_u8/16/24, take, map, map_parser, complete, many1); DTLS body parsers uninterpreted in Verus; R9 (closure signature + ensures), R10 (constructor eta-expanded into a closure with its trivial contract); ServerHello/Certificate/ServerDone/ClientKeyExchange bodies are the C04 parsers (checked there).",
         technique="contract-based deductive verification: Verus on extracted dispatcher/record glue + Kani full-domain header harness and leaf harnesses",
         verus=["dtls", "dtls_many", "bodies2"],
+        standins=[dict(name="framing_boundaries", kind="bounded-execution", bound="declared lengths {0,1,2,3,16383..16385,16639..16641,32768,65535} x 3 content types x 8 prefix cuts, TLS raw/encrypted/plaintext/tls_parser + DTLS record (372 cases)", payload={"framing_boundary_check": 1})],
         kani=[dict(quick=["fd_dtls_header", "fd_dtls_ccs_alert", "fd_dtls_is_fragment", "leaf_dtls_hvr", "leaf_dtls_fragment", "mod_dtls_client_hello", "shim_be", "shim_take", "shim_map_parser", "shim_many1"], timeout=900)],
         explanation="see level_text",
     ),
@@ -214,7 +217,8 @@ PROPS = {
         technique="contract-based deductive verification: Verus postconditions on extracted one-line bodies over relational combinator contracts",
         verus=["many", "dtls_many", "plaintext", "dtls"],
         kani=[dict(quick=["shim_complete", "shim_many1"], timeout=900)],
-        standins=[dict(name="multi_record_vs_explicit_loop", kind="bounded-execution", bound="all concatenations of <= 3 pieces from 13 TLS / 7 DTLS records and tails (2540 buffers)", payload={"multi_record_check": 1})],
+        standins=[dict(name="framing_boundaries", kind="bounded-execution", bound="declared lengths {0,1,2,3,16383..16385,16639..16641,32768,65535} x 3 content types x 8 prefix cuts, TLS raw/encrypted/plaintext/tls_parser + DTLS record (372 cases)", payload={"framing_boundary_check": 1}),
+                  dict(name="multi_record_vs_explicit_loop", kind="bounded-execution", bound="all concatenations of <= 3 pieces from 13 TLS / 7 DTLS records and tails (2540 buffers)", payload={"multi_record_check": 1})],
         explanation="see level_text",
     ),
     "C13": dict(
@@ -231,6 +235,7 @@ PROPS = {
         level_note="The field-by-field decode of one SCT is bounded model checking (input <= 52 bytes), not proof; the framing/ordering part is a Verus proof relative to the nom shim contracts (map_parser, length_data, take, many0, complete: Kani shim_* harnesses, bounded) and to 'fun_of(parse_ct_signed_certificate_timestamp) is the function it computes'. R11 (operand of `?` bound to a local) is applied to the list parser.",
         technique="contract-based deductive verification: Verus on the extracted entry/list framing (unbounded) + Kani contract harness for the SCT content decode (bounded)",
         verus=["sct"],
+        standins=[dict(name="sct_lists", kind="bounded-execution", bound="lists of 0..5 well-formed SCTs in 3 shapes (minimal 49-byte entries, with extensions/signature, mixed)", payload={"sct_list_check": 1})],
         kani=[dict(quick=["leaf_sct_entry", "leaf_sct_list_tiny", "shim_many0", "shim_map_parser", "shim_length_data"], thorough=["leaf_sct_list_short"], timeout=900, timeout_thorough=2400)],
         explanation="see level_text",
     ),
@@ -306,6 +311,7 @@ PROPS = {
         level_note="NOT decided: TlsPlaintext record serialization and the supported_groups extension (cookie_factory `all(iter.map(..))` exhausts CBMC memory, measured), hellos with more than 2 ciphers / 1 compression / longer session ids or extension blocks (their length fields are produced by the same helpers and `len() as u8/u16` casts, which the harness pins only for the tiny shapes). Trusted: the reference encoder in /verif/kani/ser_c09.rs (hand-written from RFC 5246 7.4 / RFC 6066).",
         technique="contract harnesses on the real serializer vs an independent reference encoder, Kani/CBMC",
         kani=[dict(quick=_SER, features=["serialize"], target="kani-serialize", timeout=900)],
+        standins=[dict(name="serializer_roundtrip", kind="bounded-execution", bound="156 handshake records of 1-2 messages from 12 shapes, the CCS record, 12 single messages, one SNI/max-fragment/groups extension list: length fields, complete parse-back, re-serialization", payload={"serializer_roundtrip_check": 1})],
         explanation="see level_text",
     ),
 }
